@@ -1032,6 +1032,29 @@ func c13LengthNarrowing(w *World, r *Report, pos token.Pos) {
 					fieldOf(e, name, d+1)
 				}
 				return
+			case *ssa.Parameter:
+				// a boundary handed to a helper of the cone: the boundary the caller passes
+				if fn := x.Parent(); fn != root && d < 30 {
+					followed := false
+					for i, prm := range fn.Params {
+						if prm != x {
+							continue
+						}
+						for _, g := range cone {
+							for _, b := range g.Blocks {
+								for _, in := range b.Instrs {
+									if c, ok := in.(ssa.CallInstruction); ok && c.Common().StaticCallee() == fn && i < len(c.Common().Args) {
+										followed = true
+										fieldOf(c.Common().Args[i], name, d+1)
+									}
+								}
+							}
+						}
+					}
+					if followed {
+						return
+					}
+				}
 			}
 			out[typeName(base.Type())+"."+name] = true
 		}
